@@ -14,7 +14,6 @@ package vsched
 import (
 	"fmt"
 	"reflect"
-	"sort"
 	"strings"
 	"sync"
 	"time"
@@ -100,6 +99,7 @@ type PointRec struct {
 	RunningOK bool // the running thread is among the enabled alternatives
 	FreeYield bool // switching away here is not a preemption (fair yield / the running thread blocked or exited)
 	NEvents   int  // number of events logged before this point
+	RunKind   Kind  // pending operation of the running thread (valid when RunningOK)
 	Extra     []int // extra deviation cost of each alternative (an unfair choice, e.g. a timer firing although another case of the select is ready)
 }
 
@@ -123,8 +123,13 @@ type Exec struct {
 	Diverged string
 	Panic    string // a thread of the execution panicked (a finding about the code, not about the harness)
 	atomics  map[any]int64
-	Sigs     map[string]bool
+	Sigs     map[uint64]bool
+	owner    map[any]int // first thread that operated on an object
+	nShared  int         // objects operated on by more than one thread
 }
+
+// SharedObjects returns the number of synchronisation objects that more than one thread operated on.
+func (e *Exec) SharedObjects() int { return e.nShared }
 
 // NoteStore lets the atomic shim tell the execution the value it stored (for state signatures).
 func NoteStore(obj any, v int64) {
@@ -133,30 +138,40 @@ func NoteStore(obj any, v int64) {
 	}
 }
 
-func (e *Exec) signature() string {
-	var sb strings.Builder
+func mix(h uint64, v uint64) uint64 {
+	h ^= v + 0x9e3779b97f4a7c15 + (h << 6) + (h >> 2)
+	h *= 0xff51afd7ed558ccd
+	return h ^ (h >> 33)
+}
+
+// signature is a hash of the scheduler-visible state: pending operation of every thread, lock owners, values of
+// the atomics, sizes of the pools (unordered collections are combined commutatively).
+func (e *Exec) signature() uint64 {
+	h := uint64(1469598103934665603)
 	for _, t := range e.threads {
 		if t.done {
-			sb.WriteString("x;")
+			h = mix(h, 0xdead)
 			continue
 		}
-		fmt.Fprintf(&sb, "%d:%s#%d;", t.id, t.pending.Kind, e.objID(t.pending.Obj))
+		h = mix(h, uint64(t.id)<<40|uint64(t.pending.Kind)<<32|uint64(e.objID(t.pending.Obj)))
 	}
-	ids := make([]string, 0, len(e.locks)+len(e.atomics)+len(e.pools))
+	var sum uint64
 	for o, ls := range e.locks {
 		if ls.writer || ls.readers > 0 {
-			ids = append(ids, fmt.Sprintf("L%d:%v%d", e.objID(o), ls.writer, ls.readers))
+			w := uint64(0)
+			if ls.writer {
+				w = 1
+			}
+			sum += mix(1, uint64(e.objID(o))<<20|w<<16|uint64(ls.readers))
 		}
 	}
 	for o, v := range e.atomics {
-		ids = append(ids, fmt.Sprintf("A%d=%d", e.objID(o), v))
+		sum += mix(2, uint64(e.objID(o))<<32^uint64(v))
 	}
 	for o, f := range e.pools {
-		ids = append(ids, fmt.Sprintf("P%d:%d", e.objID(o), len(f)))
+		sum += mix(3, uint64(e.objID(o))<<20|uint64(len(f)))
 	}
-	sort.Strings(ids)
-	sb.WriteString(strings.Join(ids, ","))
-	return sb.String()
+	return mix(h, sum)
 }
 
 type lockState struct {
@@ -389,7 +404,11 @@ func chanKey(ch any) any { return reflect.ValueOf(ch).Pointer() }
 
 // Config of one exploration.
 type Config struct {
-	Quantum int // consecutive polls of one thread before a free yield
+	// Coarse: only the first FineBound preemptions may happen at a poll (atomic load) of the running
+	// thread; later ones only at its other operations (locks, stores, pool and channel operations).
+	Coarse    bool
+	FineBound int
+	Quantum   int // consecutive polls of one thread before a free yield
 	Horizon int // maximum number of points of one execution
 	Stop    func(e *Exec) bool
 }
@@ -456,6 +475,14 @@ func (e *Exec) apply(t *thread, variant int) {
 			ls.readers--
 		}
 	}
+	if op.Obj != nil {
+		if o, ok := e.owner[op.Obj]; !ok {
+			e.owner[op.Obj] = t.id
+		} else if o >= 0 && o != t.id {
+			e.owner[op.Obj] = -1
+			e.nShared++
+		}
+	}
 	ev := Event{Thread: t.id, Kind: op.Kind, Obj: e.objID(op.Obj), Label: op.Label, Value: op.Value}
 	if op.Kind == KSelect || op.Kind == KPoolGet {
 		ev.Value = int64(variant)
@@ -467,7 +494,7 @@ func (e *Exec) apply(t *thread, variant int) {
 func Run(cfg Config, prefix []int, body func()) *Exec {
 	mu.Lock()
 	defer mu.Unlock()
-	e := &Exec{toSched: make(chan struct{}), prefix: prefix, objs: map[any]int{}, locks: map[any]*lockState{}, pools: map[any][]any{}, atomics: map[any]int64{}, Sigs: map[string]bool{},
+	e := &Exec{toSched: make(chan struct{}), prefix: prefix, objs: map[any]int{}, locks: map[any]*lockState{}, pools: map[any][]any{}, atomics: map[any]int64{}, Sigs: map[uint64]bool{}, owner: map[any]int{},
 		Quantum: cfg.Quantum, Horizon: cfg.Horizon, Stop: cfg.Stop}
 	active = e
 	defer func() { active = nil }()
@@ -485,13 +512,15 @@ func Run(cfg Config, prefix []int, body func()) *Exec {
 		if running >= 0 {
 			runT = e.threads[running]
 		}
-		// canonical order: the running thread first (unless it must yield), then ascending ids
+		// canonical order: the running thread first (unless it must yield), then the others round-robin
 		order := make([]*thread, 0, len(e.threads))
 		mustYield := runT != nil && !runT.done && e.Quantum > 0 && runT.polls >= e.Quantum
 		if runT != nil && !mustYield {
 			order = append(order, runT)
 		}
-		for _, t := range e.threads {
+		// the other threads round-robin, starting after the running one
+		for k := 1; k <= len(e.threads); k++ {
+			t := e.threads[(running+k+len(e.threads))%len(e.threads)]
 			if t != runT {
 				order = append(order, t)
 			}
@@ -514,6 +543,9 @@ func Run(cfg Config, prefix []int, body func()) *Exec {
 				if other && isTimer(t.pending.Chans[v]) {
 					x = 1
 				}
+				if t.pending.Kind == KPoolGet && v == 0 && len(vs) > 1 {
+					x = 1 // the pool dropped its free object (a collection ran): a deviation from the usual answer
+				}
 				alts = append(alts, alt{t.id, v, x})
 			}
 		}
@@ -524,6 +556,16 @@ func Run(cfg Config, prefix []int, body func()) *Exec {
 			if len(alts) == 0 {
 				for _, v := range e.enabled(runT) {
 					alts = append(alts, alt{runT.id, v, 0})
+				}
+			} else {
+				// the yield goes to the next thread in round-robin order; handing it to a different
+				// thread is a deviation that is paid for like a preemption (otherwise every yield of a
+				// polling loop would double the number of schedules)
+				first := alts[0].tid
+				for i := range alts {
+					if alts[i].tid != first {
+						alts[i].extra++
+					}
 				}
 			}
 		}
@@ -561,6 +603,9 @@ func Run(cfg Config, prefix []int, body func()) *Exec {
 			}
 		}
 		rec.FreeYield = mustYield || !rec.RunningOK
+		if rec.RunningOK {
+			rec.RunKind = runT.pending.Kind
+		}
 		e.Points = append(e.Points, rec)
 		a := alts[choice]
 		t := e.threads[a.tid]
@@ -627,7 +672,7 @@ type Stats struct {
 	Deadlocks   int64
 	Cut         int64
 	BoundDone   int
-	StateHashes map[string]bool
+	StateHashes map[uint64]bool
 }
 
 // Explore runs the DFS: check is called for every complete execution; it returns false to stop.
@@ -676,6 +721,9 @@ func Explore(cfg Config, bound int, body func(), check func(e *Exec) bool, stats
 				// variant of the same thread (data choice) is free
 				if p.RunningOK && !p.FreeYield && p.Enabled[alt] != p.Running {
 					c++
+					if cfg.Coarse && c > cfg.FineBound && p.RunKind == KLoad {
+						continue
+					}
 				}
 				c += p.Extra[alt]
 				if c > bound {
